@@ -1549,6 +1549,11 @@ class FnFront:
             if len(segs) == 1 and self.crate.adts.get(segs[0], {}).get("kind") == "unit":
                 e.res = ("unit",)
                 return ("adt", segs[0])
+            if len(segs) == 1:
+                ca = self.gen.const_array(self.item.mod, segs[0])
+                if ca is not None:
+                    e.res = ("carray", ca[1])
+                    return ("array", ca[0], len(ca[1]))
             if segs[-1] in EXTRACTED_TABLES and len(segs) == 1:
                 c = self.gen.const_decl(self.item.mod, segs[-1])
                 if c is not None:
@@ -2292,6 +2297,8 @@ class FnTrans:
                 return k(V("none"))
             if r[0] == "unit":
                 return k(V("()"))
+            if r[0] == "carray":
+                return k(V("([" + ", ".join(lit_text(x) for x in r[1]) + "] : List Int)", 100))
             if r[0] == "variant":
                 return k(vlit(r[1]))
             if r[0] == "const":
@@ -3098,6 +3105,26 @@ class Gen:
             raise Refuse(f"constant `{name}` is defined in several modules and not in this one")
         return None
 
+    def const_array(self, mod, name):
+        """a module-level `const NAME: [intN; n] = [e, …];` of integer constant expressions -> (element type,
+        values) (each value checked against the element type, the length against `n` when it is a literal); None
+        if `name` is not such a constant.  The array is written out as a list literal where it is used."""
+        if name in EXTRACTED_TABLES:
+            return None
+        try:
+            d = self.const_decl(mod, name)
+        except Refuse:
+            return None
+        if d is None or d[1] is None or d[0][0] != "array" or d[0][1][0] != "int" or d[1].k != "array":
+            return None
+        ty, e, rel, dmod, downer = d
+        vals = [self.ceval(x, dmod, None, None, ty[1]) for x in e.es]
+        for v in vals:
+            self.check_const(v, ty[1], name)
+        if ty[2] is not None and ty[2].k == "lit" and ty[2].v != len(vals):
+            raise Refuse(f"constant array `{name}`: length differs from the declared one")
+        return (ty[1], vals)
+
     def const_lookup(self, mod, owner, name, front=None):
         d = self.const_decl(mod, name, owner)
         if d is None:
@@ -3389,6 +3416,8 @@ FILES = [
     ("src/offset/utc.rs", "offset_utc"),
     ("src/offset/mod.rs", "offset"),
     ("src/datetime/mod.rs", "datetime"),
+    ("src/offset/local/tz_info/mod.rs", "tz_info"),
+    ("src/offset/local/tz_info/rule.rs", "tz_info_rule"),
 ]
 
 # (file, impl type | None, function)                      an inherent / free function
@@ -3450,6 +3479,7 @@ TARGETS = (
        ["from_timestamp", "from_timestamp_millis", "from_timestamp_micros", "from_timestamp_nanos"]]
     + [("src/datetime/mod.rs", inst, f) for inst in ["DateTime<Utc>", "DateTime<FixedOffset>"] for f in DT_BOTH]
     + [("src/offset/mod.rs", None, "from_utc_datetime", "TimeZone", z) for z in ["Utc", "FixedOffset"]]
+    + [("src/offset/local/tz_info/rule.rs", None, f) for f in ["is_leap_year", "days_since_unix_epoch"]]
 )
 
 
